@@ -6,10 +6,10 @@
 From Coq Require Import NArith List Lia Bool Arith Permutation.
 Import ListNotations.
 
-Definition item := list N.
-Definition item_eqb (a b : item) : bool := if list_eq_dec N.eq_dec a b then true else false.
-Lemma item_eqb_eq a b : item_eqb a b = true <-> a = b.
-Proof. unfold item_eqb. destruct (list_eq_dec N.eq_dec a b); split; congruence. Qed.
+Section Lru.
+Context {item : Type} (item_eqb : item -> item -> bool).
+Hypothesis item_eqb_eq : forall a b, item_eqb a b = true <-> a = b.
+Variable dflt : item.
 
 Record lru := { size : nat; items : nat -> item; bucket : list nat }.   (* bucket: least recent first *)
 
@@ -112,7 +112,7 @@ Proof.
         apply in_app_iff in Hi. destruct Hi as [Hi|[Hi|[]]]; [apply Hdef; exact Hi|congruence].
 Qed.
 
-Definition init (n : nat) : lru := {| size := n; items := fun _ => []; bucket := [] |}.
+Definition init (n : nat) : lru := {| size := n; items := fun _ => dflt; bucket := [] |}.
 Lemma inv_init n d : inv (init n) d.
 Proof. unfold inv, init; cbn. split; [constructor|]. split; [lia|]. split; [intros; split; [tauto|lia]|tauto]. Qed.
 
@@ -134,4 +134,5 @@ Proof.
   apply IH; [exact Hinv'|]. unfold put in Ep.
   destruct (find_last _ _ _); [inversion Ep; cbn; exact Hs|]. destruct (negb _); inversion Ep; cbn; exact Hs.
 Qed.
+End Lru.
 Print Assumptions lru_definitions_agree.
